@@ -9,7 +9,7 @@ use super::runner::{CheckResult, Report};
 use super::{Sim, Tier};
 
 pub fn write<S: Sim>(prop: &str, tier: Tier, seed: u64, workers: usize, res: &CheckResult, rep: &Report, extra: Value) {
-    let plan = S::plan(prop, tier);
+    let plan = super::runner::plan_of::<S>(prop, tier);
     let distinct_histories = res.hashes.iter().map(|h| h.1).collect::<BTreeSet<_>>().len();
     let mut dims: BTreeMap<String, BTreeMap<String, u64>> = BTreeMap::new();
     let mut probes: BTreeMap<String, u64> = BTreeMap::new();
@@ -68,7 +68,7 @@ pub fn write<S: Sim>(prop: &str, tier: Tier, seed: u64, workers: usize, res: &Ch
     let mut doc = doc;
     // fold the evidence of the other passes of this check (shipping profile in the thorough tier, Python tier)
     if name == prop {
-        for (tag, key) in [("shipping", "shipping_profile_pass"), ("py", "python_tier_pass"), ("asan", "address_sanitizer_pass")] {
+        for (tag, key) in [("shipping", "shipping_profile_pass"), ("py", "python_tier_pass"), ("asan", "address_sanitizer_pass"), ("dev", "unoptimised_build_pass")] {
             let side = super::runner::verif_root().join("evidence").join(format!("{}.{}.json", prop, tag));
             if let Ok(t) = std::fs::read_to_string(&side) {
                 if let Ok(v) = serde_json::from_str::<Value>(&t) {
